@@ -388,6 +388,18 @@ def send_all(chan, data, rng, stderr=False, maxchunk=None, pause=None):
     return off
 
 
+def diverge_ids(p, rng, spread=3):
+    """Make local and remote channel ids differ (and the two sides' id ranges overlap): by default both
+    transports count from 0 in step, which hides any use of the wrong one of chanid / remote_chanid."""
+    base = rng.choice((0, 1, 5, 1000, (1 << 24) - 2))
+    off = rng.randint(1, spread)
+    a, b = (base, base + off) if rng.random() < 0.5 else (base + off, base)
+    with p.tc.lock:
+        p.tc._channel_counter = a & 0xFFFFFF
+    with p.ts.lock:
+        p.ts._channel_counter = b & 0xFFFFFF
+
+
 class PollReader:
     """A receiving application that keeps reading both streams (polling, so it can
     never block itself on the wrong stream).  `settle()` proves the reader is
